@@ -190,6 +190,7 @@ def layer_b(ctx, n_cases):
       rev = scan.tree(sysm, lambda y, x: (x + 7) % M if y is None else (x + 37 * y) % M, 'l', jp.asarray(a), reverse=True)
       hdr = [str(n)] + [str(p) for p in parents] + [str(n)] + [str(v) for v in a]
       lines.append(' '.join(['scanfwd'] + hdr)); expect.append([int(v) for v in np.asarray(fwd)]); what.append(('scan.tree (exhaustive)', parents))
+      lines.append(' '.join(['scanlevels'] + hdr)); expect.append([int(v) for v in np.asarray(fwd)]); what.append(('scan.tree vs its level-grouped transcription (exhaustive)', parents))
       lines.append(' '.join(['scanrev'] + hdr)); expect.append([int(round(float(v))) for v in np.asarray(rev)]); what.append(('scan.tree reverse (exhaustive)', parents))
   out = C.run_driver('Driver/C01.lean', lines)
   dis = []
